@@ -51,8 +51,8 @@ PROPS = {
 
 PROPS.update({
     "C04": dict(
-        v_units=ALL_PLANNERS, level="proof",
-        explanation="Planner half (Verus, unbounded): if the space is convex for its own interpolation (premise convex_ok), sampler outputs are in bounds (premise samples_in_bounds), the step is non-negative and every stored state is in bounds (established by setup from an in-bounds start / goal sample), then every state added by an iteration is in bounds (the steer parameter max/d lies in [0,1] by the EXACT axiom ax_div_unit) and so is every state of a returned path. Space half: the premises are decided per concrete space by Engine K (see coverage.premises).",
+        v_units=ALL_PLANNERS + ["rv_space"], level="proof",
+        explanation="Premise samples_in_bounds for RealVector spaces of EVERY dimension is discharged by V-rvspace (sample_uniform returns only states with every coordinate in [lower, upper) of the CURRENT bounds, which satisfy the bounds check). Planner half (Verus, unbounded): if the space is convex for its own interpolation (premise convex_ok), sampler outputs are in bounds (premise samples_in_bounds), the step is non-negative and every stored state is in bounds (established by setup from an in-bounds start / goal sample), then every state added by an iteration is in bounds (the steer parameter max/d lies in [0,1] by the EXACT axiom ax_div_unit) and so is every state of a returned path. Space half: the premises are decided per concrete space by Engine K (see coverage.premises).",
         assumptions=COMMON_ASSUME + ["premises convex_ok(space), samples_in_bounds(problem), 0 <= max_distance; 'up to rounding at the boundary' is inherited from the space's own satisfies_bounds (in_bounds_spec is its result)"],
         premises={"convex_ok": "see C04 K-harnesses: proved for RealVector (per coordinate, bounded dimension), REFUTED for bounded SO(2) (known finding KF-C04-so2-short-arc), assumed for SO(3)/SE(3)"},
     ),
@@ -98,6 +98,7 @@ PENDING = {
     "C20": "Verus unit for the pyo3 / wasm wrapper bodies not built yet in this revision",
 }
 
+BT = " (decided only on the bounded native lattice, not proved)"
 K_ASSUME = ['rem_euclid / sqrt / powi / acos are replaced by the contract models of kani/h_common.rs (CBMC does not model them faithfully); results hold for the stated model domains', 'Kani 0.68 / CBMC 6.11 bit-precise IEEE-754 semantics of + - * / < abs min max clamp', 'rand::Rng::random_range(lo..hi) returns lo <= v < hi when lo < hi are finite and hi - lo is finite (sample_uniform itself is not executed under CBMC)']
 PROPS["C04"]["k_harnesses"] = True
 PROPS["C06"]["k_harnesses"] = True
@@ -108,25 +109,25 @@ PROPS.update({
         k_harnesses=True, v_units=["compound_space"], level="other",
         explanation="Verus unit V-compound: the compound / SE(2) / SE(3) distance is sqrt(sum (d_i w_i)^2) over ALL components for every layout and weight vector, through the (verified) type-erased dispatch: agreement with the independently stated reference `sq_sum`. Kani/CBMC harnesses on the real distance functions. Decided: SO(2): 0 <= d <= PI never NaN, d(a,a) == 0, (thorough) d equals the short arc within 2e-15 — complete over all canonical angles; SO(3): 0 <= d <= PI for all component values in [-1,1], NaN-or-in-range for all non-NaN values, (thorough) symmetric and q / -q equal bit for bit; RealVector: non-negative, symmetric bit for bit, d(a,a) == 0, equals sqrt(sum of squares) left to right — BOUNDED to dimension 2; compound / SE(2): weighted-L2 law bit for bit for the layout R^1 x SO(2) — BOUNDED in layout. Also audits every EXACT f64 axiom the Verus units use (complete over all bit patterns). Partial: level `other`.",
         assumptions=K_ASSUME,
-        not_covered=["triangle inequality on every space", "SO(2) symmetry d(a,b) == d(b,a) up to tolerance and seam equivalence (two chained float evaluations did not finish)", "RealVector beyond dimension 2, compound layouts beyond R^1 x SO(2), SE(3)", "agreement with an independent reference beyond the stated spec functions"],
+        not_covered=["triangle inequality, tolerance symmetry, seam / q vs -q equivalence, agreement with the independent numeric references"+BT, "RealVector distance beyond dimension 2 (one axis-aligned family in dimension 5)"+BT],
     ),
     "C10": dict(
         k_harnesses=True, v_units=["rv_space"], level="other",
         explanation="Verus unit V-rvspace on the real RealVectorStateSpace::interpolate for EVERY dimension: every output coordinate is from_i + (to_i - from_i) * t evaluated exactly so (all coordinates written, lengths preserved, no assert_eq! / index panic for states of the space's dimension). Kani/CBMC harnesses on the real interpolate functions. Decided: SO(2): the result is canonical (in [-PI,PI]) for all canonical a, b and t in [0,1]; (thorough) returns a at t = 0 up to 1e-15 mod 2 PI; RealVector (BOUNDED dimension 2): interpolate computes a_i + (b_i - a_i) * t bit for bit, and the scalar law (complete): equals a at t = 0 and lies between a and the t = 1 value a + (b - a) for every t in [0,1]; compound: acts component by component (BOUNDED layout). `returns b exactly at t = 1` is false for f64 (a + (b - a) != b for many pairs): this is the reason check_motion validates `to` itself (C01).",
-        assumptions=K_ASSUME + ["V-rvspace (Verus, every dimension): RealVectorStateSpace::distance / get_maximum_extent / enforce_bounds / get_longest_valid_segment_length are external_body (iterator adapters); struct RealVectorState is unit text; unit rules: assert_eq! -> precondition-checked call, RV1 vec![x; n] -> vec_repeat, RV2 rng.random_range(lo..hi) -> rng_random_range_f64 (contract lo <= v < hi, precondition lo < hi and hi - lo finite = rand's panic conditions), RV3 a type annotation, RV4 the private field longest_valid_segment_fraction made pub (visibility only), R20 f64::EPSILON / NEG_INFINITY as named constants; EXACT axioms ax_eps_pos, ax_sub_pos_le, ax_add_pos_ge, ax_lt_not_nan, ax_gt_asym, ax_le_not_gt, ax_neg_inf_lt_inf audited by the Layer-0 harnesses ax_eps_pos / ax_sub_add_pos / ax_order_misc; f64 +, -, * are uninterpreted deterministic functions (laws are equalities of the same expression)"],
-        not_covered=["constant speed d(a, interp(a,b,t)) == t d(a,b) on every space", "SO(3) SLERP / NLERP: unit norm of the result, switch continuity, end points", "SO(2) interp(b,a,1-t) == interp(a,b,t)"],
+        assumptions=K_ASSUME + ["V-rvspace (Verus, every dimension): RealVectorStateSpace::distance / get_maximum_extent / get_longest_valid_segment_length are external_body (iterator adapters); unit rule RV5 `for (i, x) in v.iter_mut().enumerate() {` -> `for i in 0..v.len() { let x = &mut v[i];`; f64::clamp as an uninterpreted function with the EXACT axiom ax_clamp (audited by the Layer-0 harness ax_clamp); struct RealVectorState is unit text; unit rules: assert_eq! -> precondition-checked call, RV1 vec![x; n] -> vec_repeat, RV2 rng.random_range(lo..hi) -> rng_random_range_f64 (contract lo <= v < hi, precondition lo < hi and hi - lo finite = rand's panic conditions), RV3 a type annotation, RV4 the private field longest_valid_segment_fraction made pub (visibility only), R20 f64::EPSILON / NEG_INFINITY as named constants; EXACT axioms ax_eps_pos, ax_sub_pos_le, ax_add_pos_ge, ax_lt_not_nan, ax_gt_asym, ax_le_not_gt, ax_neg_inf_lt_inf audited by the Layer-0 harnesses ax_eps_pos / ax_sub_add_pos / ax_order_misc; f64 +, -, * are uninterpreted deterministic functions (laws are equalities of the same expression)"],
+        not_covered=["constant speed d(a, interp(a,b,t)) == t d(a,b), end points, reversal symmetry on every space"+BT, "SO(3) SLERP / NLERP: unit norm of the result, switch continuity"+BT],
     ),
     "C11": dict(
         k_harnesses=True, v_units=["rv_space"], level="proof",
-        explanation="Verus unit V-rvspace on the real RealVectorStateSpace for EVERY dimension and every constructible (wf) space: satisfies_bounds accepts exactly the states whose every coordinate passes the EPSILON-widened interval test (no coordinate skipped); sample_uniform returns Ok only with one coordinate per dimension, each in [lower, upper), and every such state satisfies the bounds (lemma from a - e <= a <= a + e); the sampler's random_range call cannot panic (lo < hi and hi - lo finite are established by the guards) and the only errors are the documented ones. Kani/CBMC harnesses on the real enforce_bounds / satisfies_bounds. SO(2) — complete over all well-formed bounds and all states in the rem_euclid model domain: after enforce the check accepts the state, the value is numerically inside [lo,hi], a second enforce is the identity bit for bit, a canonical satisfying state is left unchanged, and any value in [lo,hi) (random_range contract) satisfies the bounds. RealVector — BOUNDED to dimension 2: same clauses (enforce never panics on a constructible box). Compound (R^1 x SO(2)): component-wise and enforced ==> accepted (bounded layout).",
-        assumptions=K_ASSUME + ["V-rvspace (Verus, every dimension): RealVectorStateSpace::distance / get_maximum_extent / enforce_bounds / get_longest_valid_segment_length are external_body (iterator adapters); struct RealVectorState is unit text; unit rules: assert_eq! -> precondition-checked call, RV1 vec![x; n] -> vec_repeat, RV2 rng.random_range(lo..hi) -> rng_random_range_f64 (contract lo <= v < hi, precondition lo < hi and hi - lo finite = rand's panic conditions), RV3 a type annotation, RV4 the private field longest_valid_segment_fraction made pub (visibility only), R20 f64::EPSILON / NEG_INFINITY as named constants; EXACT axioms ax_eps_pos, ax_sub_pos_le, ax_add_pos_ge, ax_lt_not_nan, ax_gt_asym, ax_le_not_gt, ax_neg_inf_lt_inf audited by the Layer-0 harnesses ax_eps_pos / ax_sub_add_pos / ax_order_misc; f64 +, -, * are uninterpreted deterministic functions (laws are equalities of the same expression)"],
-        not_covered=["SO(3) enforce_bounds / satisfies_bounds / sample_uniform (acos / sin reasoning; the rejection loop is unbounded)", "sample_uniform is not executed under CBMC: its guards and rand's contract are used instead"],
+        explanation="Verus unit V-rvspace on the real RealVectorStateSpace for EVERY dimension and every constructible (wf) space: enforce_bounds replaces EVERY coordinate by clamp(x_i, lower_i, upper_i) and nothing else (clamp cannot panic: lower < upper), the enforced state satisfies the bounds, enforcing again is the identity bit for bit (NaN coordinates stay NaN and are accepted by the check); satisfies_bounds accepts exactly the states whose every coordinate passes the EPSILON-widened interval test (no coordinate skipped); sample_uniform returns Ok only with one coordinate per dimension, each in [lower, upper), and every such state satisfies the bounds (lemma from a - e <= a <= a + e); the sampler's random_range call cannot panic (lo < hi and hi - lo finite are established by the guards) and the only errors are the documented ones. Kani/CBMC harnesses on the real enforce_bounds / satisfies_bounds. SO(2) — complete over all well-formed bounds and all states in the rem_euclid model domain: after enforce the check accepts the state, the value is numerically inside [lo,hi], a second enforce is the identity bit for bit, a canonical satisfying state is left unchanged, and any value in [lo,hi) (random_range contract) satisfies the bounds. RealVector — BOUNDED to dimension 2: same clauses (enforce never panics on a constructible box). Compound (R^1 x SO(2)): component-wise and enforced ==> accepted (bounded layout).",
+        assumptions=K_ASSUME + ["V-rvspace (Verus, every dimension): RealVectorStateSpace::distance / get_maximum_extent / get_longest_valid_segment_length are external_body (iterator adapters); unit rule RV5 `for (i, x) in v.iter_mut().enumerate() {` -> `for i in 0..v.len() { let x = &mut v[i];`; f64::clamp as an uninterpreted function with the EXACT axiom ax_clamp (audited by the Layer-0 harness ax_clamp); struct RealVectorState is unit text; unit rules: assert_eq! -> precondition-checked call, RV1 vec![x; n] -> vec_repeat, RV2 rng.random_range(lo..hi) -> rng_random_range_f64 (contract lo <= v < hi, precondition lo < hi and hi - lo finite = rand's panic conditions), RV3 a type annotation, RV4 the private field longest_valid_segment_fraction made pub (visibility only), R20 f64::EPSILON / NEG_INFINITY as named constants; EXACT axioms ax_eps_pos, ax_sub_pos_le, ax_add_pos_ge, ax_lt_not_nan, ax_gt_asym, ax_le_not_gt, ax_neg_inf_lt_inf audited by the Layer-0 harnesses ax_eps_pos / ax_sub_add_pos / ax_order_misc; f64 +, -, * are uninterpreted deterministic functions (laws are equalities of the same expression)"],
+        not_covered=["SO(3) enforce_bounds / satisfies_bounds / sample_uniform (acos / sin reasoning; the rejection loop is unbounded)"+BT, "sample_uniform is not executed under CBMC: its guards and rand's contract are used instead"],
     ),
     "C12": dict(
         k_harnesses=True, v_units=["rv_space"], level="proof",
         explanation="Verus unit V-rvspace on the real RealVectorStateSpace::new for EVERY dimension: Ok ==> bounds.len() == dimension and every lower < upper (so no NaN), given bounds are stored unchanged, absent bounds become (-inf, +inf) per dimension; wrong length ==> Err, any pair with !(lower < upper) (incl. NaN) ==> Err, dimension 0 without bounds ==> Err. Kani/CBMC function contract on the real SO2StateSpace::new (complete over all Option<(f64,f64)>): Ok <==> both the given and the clamped interval are non-empty (NaN rejected), stored bounds satisfy -PI <= lo < hi <= PI, the error is InvalidBound; every returned space has a non-empty finite range and its bounds operations do not panic. SO3StateSpace::new (complete): Ok ==> 0 <= radius <= PI never NaN, Err <==> radius < 0. RealVectorStateSpace::new: BOUNDED (dimension 1 quick, <= 2 thorough). SO2State::new / normalise / SE2State::new: result in [-PI,PI] for all finite angles (range model) and congruent mod 2 PI (thorough, exact model domain). SO3State::normalise: Err(ZeroMagnitude) <==> norm < 1e-9, otherwise every component divided by the norm.",
-        assumptions=K_ASSUME + ["V-rvspace (Verus, every dimension): RealVectorStateSpace::distance / get_maximum_extent / enforce_bounds / get_longest_valid_segment_length are external_body (iterator adapters); struct RealVectorState is unit text; unit rules: assert_eq! -> precondition-checked call, RV1 vec![x; n] -> vec_repeat, RV2 rng.random_range(lo..hi) -> rng_random_range_f64 (contract lo <= v < hi, precondition lo < hi and hi - lo finite = rand's panic conditions), RV3 a type annotation, RV4 the private field longest_valid_segment_fraction made pub (visibility only), R20 f64::EPSILON / NEG_INFINITY as named constants; EXACT axioms ax_eps_pos, ax_sub_pos_le, ax_add_pos_ge, ax_lt_not_nan, ax_gt_asym, ax_le_not_gt, ax_neg_inf_lt_inf audited by the Layer-0 harnesses ax_eps_pos / ax_sub_add_pos / ax_order_misc; f64 +, -, * are uninterpreted deterministic functions (laws are equalities of the same expression)"],
-        not_covered=["SE(3) and compound constructors", "unit norm of the normalised quaternion up to tolerance (needs an error bound on sqrt)"],
+        assumptions=K_ASSUME + ["V-rvspace (Verus, every dimension): RealVectorStateSpace::distance / get_maximum_extent / get_longest_valid_segment_length are external_body (iterator adapters); unit rule RV5 `for (i, x) in v.iter_mut().enumerate() {` -> `for i in 0..v.len() { let x = &mut v[i];`; f64::clamp as an uninterpreted function with the EXACT axiom ax_clamp (audited by the Layer-0 harness ax_clamp); struct RealVectorState is unit text; unit rules: assert_eq! -> precondition-checked call, RV1 vec![x; n] -> vec_repeat, RV2 rng.random_range(lo..hi) -> rng_random_range_f64 (contract lo <= v < hi, precondition lo < hi and hi - lo finite = rand's panic conditions), RV3 a type annotation, RV4 the private field longest_valid_segment_fraction made pub (visibility only), R20 f64::EPSILON / NEG_INFINITY as named constants; EXACT axioms ax_eps_pos, ax_sub_pos_le, ax_add_pos_ge, ax_lt_not_nan, ax_gt_asym, ax_le_not_gt, ax_neg_inf_lt_inf audited by the Layer-0 harnesses ax_eps_pos / ax_sub_add_pos / ax_order_misc; f64 +, -, * are uninterpreted deterministic functions (laws are equalities of the same expression)"],
+        not_covered=["CompoundStateSpace::new has no validation to check (lengths are a precondition, listed under C08)", "unit norm of the normalised quaternion up to tolerance (needs an error bound on sqrt)"+BT, "SO2State / SE2State congruence modulo 2 PI for |angle| beyond the exact model domain"+BT],
     ),
     "C13": dict(
         k_harnesses=True, v_units=["compound_space"], level="proof",
@@ -157,3 +158,6 @@ LATTICE = "bounded: lattices of special values (0, +-PI, +-PI +- 1 ulp, multiple
 for _k in ("C09", "C10", "C11", "C12", "C13"):
     PROPS[_k]["bounded_scenarios"] = LATTICE
     PROPS[_k]["explanation"] += " BOUNDED stand-in (never counted as proved): the native lattice family of this property (replay/src/spaces.rs) runs the real spaces on the lattice described under coverage.bounded_checks; it is what reaches the SO(3) clauses (acos / sin) and the tolerance relations, and it attaches a concrete failing input to a violation."
+
+PROPS["C20"]["bounded_scenarios"] = "bounded: the real oxmpl_py extension module (built from the tree under check) under the real CPython; 4 planners x R^2 problem; validity callback failing on a band of states in 6 ways (raise, None, 1, 'valid', [True], 1.0); goal.is_satisfied failing in 4 ways; each compared with the run whose callback returns False on the same states (same seed); oxmpl-js cannot be executed here (no wasm target)"
+PROPS["C20"]["explanation"] += " BOUNDED stand-in (never counted as proved): replay/py/c20_scenarios.py drives the REAL bindings with failing Python callbacks and compares with the run whose callbacks return False on the same states; it attaches concrete failing inputs to violations of the Python half."
